@@ -43,6 +43,19 @@ class C11(WigBedProp):
             else:
                 names, sizes, data, tags = bbgen.gen_wig_input(r, nchrom=r.choice([2, 3, 6, 8]), value_mode="int" if g % 3 == 0 or g % 2 == 0 else "bits", maxn=40)
                 body = bbgen.wig_lines(names, sizes, data)
+            if g % 3 == 1:
+                # large chromosomes: every per-chromosome writer spills its 8 KiB buffer several times, so the file can be
+                # handed over in the MIDDLE of a chromosome's writes (the mid-stream path of the staging buffer)
+                names = ["chrA", "chrB", "chrC", "chrD"][: r.choice([2, 3, 4])]
+                sizes = {n: 400000 for n in names}
+                if bed:
+                    data = {n: [(i * 9, i * 9 + 5, "name%d\t%d" % (i, i % 1000)) for i in range(r.range(1500, 3000))] for n in names}
+                    body = bbgen.bed_lines(names, sizes, data)
+                else:
+                    data = {n: [(i * 9, i * 9 + 4, bbgen.f32bits(float(1 + (i * 7919 + j) % 251))) for i in range(r.range(2500, 5000))]
+                            for j, n in enumerate(names)}
+                    body = bbgen.wig_lines(names, sizes, data)
+                tags.add("chromosomes_spill_bufwriter")
             configs = [{"threads": 1, "rt": "ct", "chan": 0, "inmem": 0, "src": "iter", "delay": 0}]
             lattice = []
             for th in ([1, 2, 3, 4, 8, 16] if tier == "thorough" else [1, 2, 4, 16]):
@@ -65,7 +78,7 @@ class C11(WigBedProp):
                 o.update(cfg)
                 o["sort"] = "all"
                 o["keep"] = 0
-                t = {"bed" if bed else "wig", f"src={cfg['src']}", f"rt={cfg['rt']}", f"chan={cfg['chan']}", f"inmem={cfg['inmem']}",
+                t = {"bed" if bed else "wig", f"src={cfg['src']}", *([x for x in tags if x == "chromosomes_spill_bufwriter"]), f"rt={cfg['rt']}", f"chan={cfg['chan']}", f"inmem={cfg['inmem']}",
                      f"threads={cfg['threads']}", f"pass={fmt['pass']}"}
                 if cfg["threads"] >= 2 and cfg["delay"] and len(names) >= 2:
                     t.add("nt")
